@@ -340,7 +340,7 @@ for b in (1024, 2048, 3072, 4096):
             work.append(('rsa', b, o))
 work += [('fixed', 'ssh-ed25519'), ('fixed', 'ssh-ed448')]
 RSACERT = ['ssh-rsa-cert-v01@openssh.com', 'rsa-sha2-256-cert-v01@openssh.com', 'rsa-sha2-512-cert-v01@openssh.com']
-CAS = [('rsa', b) for b in (1024, 1536, 2032, 2048, 2064, 3056, 3072, 3088, 4096, 8192)] + [('ed25519', 256)] + [('ecdsa', b) for b in (256, 384, 521)]
+CAS = [('rsa', b) for b in (1024, 1536, 2032, 2040, 2047, 2048, 2064, 3056, 3071, 3072, 3088, 4096, 8192)] + [('ed25519', 256)] + [('ecdsa', b) for b in (256, 384, 521)]
 for j, (ck, cb) in enumerate(CAS):
     for i, hb in enumerate((1024, 2032, 2048, 3056, 3072, 4096)):
         work.append(('cert', 'rsa', hb, ck, cb, RSACERT[(i + j) %% 3]))
